@@ -4,7 +4,7 @@ working tree, running the translators and the Coq build, running both drivers on
 file, comparing outcomes, classifying failures against known_findings.jsonl, evidence."""
 import os, sys, json, subprocess, time, shutil, random, re, hashlib
 
-VERIF = '/verif'
+VERIF = os.environ.get('VERIF_ROOT') or os.path.dirname(os.path.dirname(os.path.abspath(__file__)))
 REPO = os.environ.get('VERIF_REPO', '/repo')
 HARN = VERIF + '/harness'
 COQ = VERIF + '/coq'
